@@ -77,7 +77,10 @@ Definition net_writen_cmd (parts : list bytes) (w : world) : Cres world :=
 (* ---------------------------------------------------------------- qremote.c: quitmsg, net_conn_shutdown *)
 (** quitmsg(): QUIT, then replies are read with net_read(0) until one without '-'
     (errors only logged, nothing is written to the status stream): the reads are
-    not modelled because nothing observable follows them. *)
+    not modelled because nothing observable follows them.  That net_read(0) really
+    returns whatever the server does -- also inside an over-long line, where loop_long()
+    used to call dieerror() -- is theorem C04_quitmsg_silent over the byte-level model
+    of the same function in Model/TlsClient.v. *)
 Definition quitmsg (w : world) : world :=
   let w1 := netwrite QR_CMD_QUIT w in mkW (w_linein w1) (w_status w1) (w_net w1) false.
 (** both end in exit(): the pair is (exit code, final world) *)
